@@ -2,7 +2,7 @@
 # Runs the repository's pinned test suite (guard OFF: no build tags) and compares with BASELINE.json's stable_pass list.
 # Exit 0 iff every stable_pass test passed.
 set -u
-cd /repo
+cd ${KM_REPO:-/repo}
 OUT=$(mktemp)
 go test -mod=mod -json -vet=off -count=1 -timeout 25m ./... > "$OUT" 2>/dev/null
 python3 - "$OUT" <<'PY'
